@@ -122,7 +122,7 @@ pub fn replay(case: &Value) -> Result<Verdict, String> {
 }
 
 fn routing_action() -> BoxedStrategy<Act> {
-    let f = || prop::sample::select(vec!["a", "b", "c"]).prop_map(|s| s.to_string());
+    let f = || prop_oneof![6 => prop::sample::select(vec!["a", "b", "c"]).prop_map(|s| s.to_string()), 1 => prop::sample::select(vec!["/a", "./a", "a/", "a//b", "a/b", "/a/b", "A"]).prop_map(|s| s.to_string()), 1 => prop::sample::select(crate::dict::paths())];
     let fmt = || {
         prop_oneof![
             Just(vec![FEl::F(Fld::NameNoStart), FEl::E(Esc::Newline)]),
@@ -186,6 +186,35 @@ pub fn run(ctx: &Ctx) -> Report {
     });
     total.merge(ch);
     total.exhaustive_parts.push("chains of up to 300 (quick: 11 sizes, thorough: every size 1..310) distinct file destinations with all three terminators".into());
+    // long chains and deep nesting whose output is all plain: the mode must stay plain
+    let mut st = Stats::new();
+    for n in [10usize, 63, 64, 65, 66, 100, 129, 300] {
+        for (k, act) in [Act::Print, Act::Printf(vec![FEl::F(Fld::NameNoStart), FEl::E(Esc::Newline)]), Act::Print0, Act::FPrint("a".into())].into_iter().enumerate() {
+            for op in 0..3 {
+                let mut e = E::T(Tst::Uid(Cmp::Eq, 1));
+                for i in 1..n {
+                    let leaf = if i == n - 1 { E::A(act.clone()) } else if i % 7 == 0 { E::T(Tst::Name("a".into())) } else { E::T(Tst::True) };
+                    e = match op {
+                        0 => E::and(e, leaf),
+                        1 => E::or(e, leaf),
+                        _ => E::list(e, leaf),
+                    };
+                }
+                let v = judge(&e);
+                st.record(&v, stable_hash(&e), true, || json!({"kind": "long-chain", "operands": n, "action": k, "operator": op, "tree": term::encode_expr(&e)}));
+            }
+            if n <= 100 {
+                let mut e = E::A(act.clone());
+                for _ in 0..n {
+                    e = E::not(e);
+                }
+                let v = judge(&e);
+                st.record(&v, stable_hash(&e), true, || json!({"kind": "nested-not", "depth": n, "action": k, "tree": term::encode_expr(&e)}));
+            }
+        }
+    }
+    total.merge(st);
+    total.exhaustive_parts.push("chains of 10..300 operands and 10..100 nested negations ending in each kind of action (mode choice must not depend on the size of the tree)".into());
     let cases = ctx.tier.pick(160_000u32, 1_600_000u32);
     let rnd = run_shards(16, |shard| {
         let mut st = Stats::new();
